@@ -211,7 +211,7 @@ def handle (line : String) : String :=
         (if cDet then "" else "detached;") ++ (if cDel then "" else "delivered;") ++
         (if cPanic then "" else "panic;") ++ (if cStay then "" else "stay;") ++
         (if cCancel then "" else s!"notCancelled{notCancelled};") ++ (if cObs then "" else "obs;")
-      let cls := s!"{mode}-" ++ (if n ≤ 4 then plans.replace ";" "+" else s!"mix-n{bucket n}")
+      let cls := s!"{mode}-" ++ (if n ≤ 4 || plans.startsWith "h2-" then plans.replace ";" "+" else s!"mix-n{bucket n}")
       out id agree (b2s spec) cls known (model ++ (if spec then "" else s!" failing={failing}"))
     | _, _, _, _, _, _ => bad id "parse"
   | _ :: id :: _ => bad id "shape"
